@@ -54,8 +54,8 @@ def cleanup_static() -> None:
         _FLAGS.clear()
 
 
-def static_file(n: int, salt: int) -> Tuple[str, bytes]:
-    name = 'f_%d_%d.bin' % (n, salt)
+def static_file(n: int, salt: int, ext: str = 'bin') -> Tuple[str, bytes]:
+    name = 'f_%d_%d.%s' % (n, salt, ext)
     p = os.path.join(static_dir(), name)
     data = stream(n, salt)
     if not os.path.exists(p):
